@@ -11,6 +11,7 @@ func init() {
 			"Not decided: numeric ranges, protobuf decoding, DST arithmetic of the time package.",
 		Rules: []Rule{
 			{Name: "A3", Doc: "wire table against gtfs-realtime.proto", MinInstances: 35, Run: runWireTable},
+			{Name: "LOOPVAR", Doc: "no pointer to a per-loop (go 1.18) iteration variable is kept in the result", MinInstances: 0, Run: func(c *Ctx) { runLoopVarAlias(c, realtimeFns(c), "LOOPVAR") }},
 			{Name: "ZONE", Doc: "instants are expressed in the configured zone", MinInstances: 3, Run: runZoneProvenance},
 			{Name: "UNITS", Doc: "units, direction table, absent stays absent", MinInstances: 4, Run: runUnits},
 			{Name: "MERGE", Doc: "one entry per descriptor, flagged by its own entity", MinInstances: 7, Run: runMergeRules},
